@@ -66,7 +66,7 @@ def run(ck):
         meta, res = cpu.parse_go(go[i])
         by = {(r["variant"], r["par"]): r for r in res}
         # (a) tie: Go MVP-1 … MVP-4 against the cycle-accurate Lean models (all cases, well-formed or not)
-        for key, var in (("m1", "mvp1"), ("m2", "mvp2"), ("m3", "mvp3"), ("m4", "mvp4")):
+        for key, var in (("m1", "mvp1"), ("m2", "mvp2"), ("m3", "mvp3"), ("m4", "mvp4"), ("m5", "mvp5")):
             if key not in ref or (var, 0) not in by:
                 continue
             h, cyc, steps, same = ref[key].split(",")
